@@ -127,6 +127,29 @@ def dispatch(t1: int, t2: int, nd: int, np: int, meta: int, hits: int) -> str:
 
 
 
+def same_name(t1: int, t2: int, np: int) -> str:
+    """
+    Two definitions that share a NAME (a counter and a histogram called "orders", or the same type with different labels)
+    are two metrics: both are reported, each through its own operation and with its own labels.
+    PRE: 0 <= t1 <= 3 and 0 <= t2 <= 3 and 1 <= np <= 2
+    POST: _ == ""
+    """
+    world.begin_path()
+    t1, t2, np_ = world.realize(t1), world.realize(t2), world.realize(np)
+    P = plugins()
+    logs = [[] for _ in range(np_)]
+    w = World(plugin_list=[P["RecMetricProcessor"](lg) for lg in logs])
+    _install(w, [_pb_metric("orders", TYPES[t1], None, [("a", 1)], True), _pb_metric("orders", TYPES[t2], None, [("b", 1)], True)])
+    w.event(FakeFrame("/app/f.py", "f", 7, {"name": "bob"}), "line", None)
+    world.reached()
+    for lg in logs:
+        got = sorted((e[0], e[1], tuple(sorted(e[2]))) for e in lg)
+        want = sorted([(METHOD[TYPES[t1]], "orders", ("a",)), (METHOD[TYPES[t2]], "orders", ("b",))])
+        if got != want:
+            return "C17:same-name:definition-%s" % ("lost" if len(got) < 2 else "altered")
+    return ""
+
+
 def once(np: int, nd: int, hits: int, lab: int) -> str:
     """
     The expressions of a metric (value, label) are evaluated ONCE per definition and hit, however many processors are
@@ -295,6 +318,8 @@ CONDITIONS = [
     dict(fn="dispatch", cubes=["t1 == %d and nd == %d and hits == %d" % (a, n, h) for a in range(4) for n in (1, 2) for h in (1, 2)],
          twins=["reach", "mutant:always_counter@t1 == 1 and nd == 1 and hits == 1"],
          bounds="1-2 definitions x 4 types each, 0-2 processors, metadata present/absent, 1-2 hits"),
+    dict(fn="same_name", cubes=["t1 == %d" % a for a in range(4)], twins=["reach"],
+         bounds="two definitions sharing one name: 4x4 type pairs, different labels, 1-2 processors"),
     dict(fn="once", cubes=["np == %d and nd == %d" % (a, b) for a in (1, 2, 3) for b in (1, 2)], twins=["reach"],
          bounds="1-3 processors x 1-2 definitions x 1-2 hits; value (and optionally a label) expression that consumes application state"),
     dict(fn="value", cubes=["vk == %d" % k for k in range(10)],
